@@ -2,4 +2,7 @@
 EXTENDS HeldCalls
 ObjectsMC == [haigh |-> {"g0", "f0"}, matrix |-> {"rm", "ft"}]
 ArgsMC == [haigh |-> {"unnamed3", "named12", "named567"}, matrix |-> {"s0", "s1", "s2"}]
+(* extension (bin/vcheck ext): a kept DamageCalculatorPRAM asked for its lifetime and for N_max_bearable(P_A) in any order *)
+ObjectsCalc == [pram |-> {"base1", "base3"}]
+ArgsCalc == [pram |-> {"lifetime", "N50", "N1e5"}]
 =============================================================================
